@@ -159,7 +159,8 @@ func (m *ModuleInstance) ensureResourcesClosed(ctx context.Context) (err error) 
 	}
 
 	if mem := m.MemoryInstance; mem != nil {
-		if mem.expBuffer != nil {
+		// The memory may be shared with other instances through imports: only the last one to close frees it.
+		if mem.users.Add(-1) <= 0 && mem.expBuffer != nil {
 			mem.expBuffer.Free()
 			mem.expBuffer = nil
 		}
